@@ -1,13 +1,24 @@
 use crate::analysis::AvailableValue;
 use crate::cfg::Cfg;
 use crate::parser::{HasRegisterSets, Register};
-use crate::passes::{DiagnosticManager, LintError, LintPass};
+use crate::passes::{DiagnosticLocation, DiagnosticManager, LintError, LintPass};
+use std::rc::Rc;
 
 // Check if the values of callee-saved registers are restored to the original value at the end of the function
 pub struct CalleeSavedRegisterCheck;
 impl LintPass for CalleeSavedRegisterCheck {
     fn run(cfg: &Cfg, errors: &mut DiagnosticManager) {
-        for func in cfg.functions().values() {
+        // The function table has one entry per label: visit every function once,
+        // in source order, and report every offending store once (functions
+        // that share code find the same store).
+        let mut functions = cfg.functions().values().cloned().collect::<Vec<_>>();
+        functions.sort_by_key(|func| {
+            let entry = func.entry();
+            (entry.range().start().raw_index(), entry.file())
+        });
+        functions.dedup_by(|a, b| Rc::ptr_eq(a, b));
+        let mut reported: Vec<(uuid::Uuid, crate::parser::Range)> = Vec::new();
+        for func in &functions {
             let exit_vals = func.exit().reg_values_in();
             for reg in &Register::callee_saved_set() {
                 match exit_vals.get(&reg) {
@@ -24,7 +35,11 @@ impl LintPass for CalleeSavedRegisterCheck {
                         // from the return point that that register was overwritten.
                         let ranges = Cfg::error_ranges_for_first_store(&func.exit(), reg);
                         for range in ranges {
-                            errors.push(LintError::OverwriteCalleeSavedRegister(range));
+                            let place = (range.file(), range.range());
+                            if !reported.contains(&place) {
+                                reported.push(place);
+                                errors.push(LintError::OverwriteCalleeSavedRegister(range));
+                            }
                         }
                     }
                 }
